@@ -215,8 +215,9 @@ type TermBuilder struct {
 	MaxDepth      int
 	NoInline      bool
 	inlineDepth   int
-	Choose        func(*ssa.Phi) ssa.Value // optional: resolve a phi under a mode valuation
-	Deep          bool                     // inline the return terms of module helpers (any shape) unless named in Keep
+	Choose        func(*ssa.Phi) ssa.Value   // optional: resolve a phi under a mode valuation
+	Feasible      func(*ssa.BasicBlock) bool // optional: blocks that can run under the current mode valuation (stores elsewhere are ignored)
+	Deep          bool                       // inline the return terms of module helpers (any shape) unless named in Keep
 	Keep          map[string]bool
 	stack         []*ssa.Function
 	// Inline: module functions whose single-return body may be substituted (none by default).
@@ -1428,6 +1429,10 @@ func (tb *TermBuilder) liveStores(a *ssa.Alloc, path []string, L ssa.Instruction
 	all := tb.stores[a]
 	var out []*ssa.Store
 	for _, s := range all {
+		// under a mode valuation, a store in a block that cannot run contributes nothing
+		if tb.Feasible != nil && !tb.Feasible(s.Block()) {
+			continue
+		}
 		if tb.closureStores[s] {
 			out = append(out, s)
 			continue
